@@ -23,6 +23,11 @@ def klass(v):
             type(v).__module__.startswith('ruamel')):
         if isinstance(v, float) and not math.isfinite(v):
             return 'other:nonfinite'
+        if isinstance(v, int) and abs(v) >= 2 ** 1024:
+            # pycel turns integral floats into python ints; results beyond
+            # the double range are not Excel numbers (and float() of them
+            # raises)
+            return 'other:int-beyond-double'
         return 'number'
     if isinstance(v, str):
         return 'error' if v in ERRSET else 'text'
